@@ -40,20 +40,20 @@ Definition aliases (items : list item) : list var :=
 Definition agg_aliases (aggs : list (aggfn * option var)) : list var :=
   flat_map (fun a => match snd a with Some x => [x] | None => [] end) aggs.
 
-Fixpoint out_vars (p : plan) : list var :=
+Fixpoint out_vars_pre (p : plan) : list var :=
   match p with
   | PScan x _ => [x]
   | PScanIn x _ _ => [x]
-  | PExpand _ t ev _ _ h inp => t :: (match ev with Some e => [e] | None => [] end) ++ out_vars inp
-  | PFilter _ inp => out_vars inp
-  | PProject items inp => aliases items ++ out_vars inp
-  | PJoin _ _ l r => out_vars l ++ out_vars r
+  | PExpand _ t ev _ _ h inp => t :: (match ev with Some e => [e] | None => [] end) ++ out_vars_pre inp
+  | PFilter _ inp => out_vars_pre inp
+  | PProject items inp => aliases items ++ out_vars_pre inp
+  | PJoin _ _ l r => out_vars_pre l ++ out_vars_pre r
   | PAgg groups aggs _ => flat_map expr_vars groups ++ agg_aliases aggs
-  | PReturn _ _ inp => out_vars inp
-  | PLimit _ inp => out_vars inp
-  | PSkip _ inp => out_vars inp
-  | PSort _ inp => out_vars inp
-  | PDistinct inp => out_vars inp
+  | PReturn _ _ inp => out_vars_pre inp
+  | PLimit _ inp => out_vars_pre inp
+  | PSkip _ inp => out_vars_pre inp
+  | PSort _ inp => out_vars_pre inp
+  | PDistinct inp => out_vars_pre inp
   | PEmpty | PLeftJoin _ _ | PUnion _ _ => []
   end.
 
@@ -72,13 +72,150 @@ Definition subsetb (a b : list var) : bool := forallb (fun x => mem x b) a.
 
 
 (** ** Filter push-down *)
-Fixpoint try_push (pred : expr) (op : plan) : plan :=
+Fixpoint try_push_pre (pred : expr) (op : plan) : plan :=
   match op with
   | PProject items inp =>
       if disjointb (expr_vars pred) (aliases items)
+      then PProject items (try_push_pre pred inp)
+      else PFilter pred op
+  | PReturn items d inp => PReturn items d (try_push_pre pred inp)
+  | PExpand f t ev d ty h inp =>
+      let introduced := xintro t ev h in
+      if uses_any (expr_vars pred) introduced
+      then PFilter pred op
+      else PExpand f t ev d ty h (try_push_pre pred inp)
+  | PJoin k cs l r =>
+      let pv := expr_vars pred in
+      let uses_left := uses_any pv (out_vars_pre l) in
+      let uses_right := uses_any pv (out_vars_pre r) in
+      if uses_left && negb uses_right then PJoin k cs (try_push_pre pred l) r
+      else if uses_right && negb uses_left then PJoin k cs l (try_push_pre pred r)
+      else PFilter pred op
+  | _ => PFilter pred op
+  end.
+
+Fixpoint pfd_pre (op : plan) : plan :=
+  match op with
+  | PFilter e inp => try_push_pre e (pfd_pre inp)
+  | PReturn items d inp => PReturn items d (pfd_pre inp)
+  | PProject items inp => PProject items (pfd_pre inp)
+  | PLimit n inp => PLimit n (pfd_pre inp)
+  | PSkip n inp => PSkip n (pfd_pre inp)
+  | PSort ks inp => PSort ks (pfd_pre inp)
+  | PDistinct inp => PDistinct (pfd_pre inp)
+  | PExpand f t ev d ty h inp => PExpand f t ev d ty h (pfd_pre inp)
+  | PJoin k cs l r => PJoin k cs (pfd_pre l) (pfd_pre r)
+  | PAgg gs ags inp => PAgg gs ags (pfd_pre inp)
+  | PEmpty | PScan _ _ | PScanIn _ _ _ | PLeftJoin _ _ | PUnion _ _ => op
+  end.
+
+(** *** Where the push-down is justified
+    [pfd_ok_pre p] follows the recursion of [pfd_pre]/[try_push_pre] and is false as soon as a predicate is moved
+    to a place where one of its variables means something else:
+      - through an Expand with a path alias [p] although it mentions the hidden column
+        [_path_length_p] (the code only looks for [p]),
+      - through a Project/Return although a variable it mentions is not an identity pass-through
+        column of that operator (the code only looks at *aliases*, and not at all for Return),
+      - into one side of a join although it mentions a column of the other side (the code decides
+        with [out_vars_pre], which does not know the columns of a NodeScan's input, a LeftJoin, a Union),
+      - into the optional side of a [JLeft] join (the code never looks at the join type).
+    The finding class is its negation. *)
+Fixpoint passes_through (v : var) (items : list item) : bool :=
+  match items with
+  | [] => false
+  | it :: items' =>
+      if String.eqb (item_name it) v
+      then match fst it with EVar x => String.eqb x v | _ => false end
+      else passes_through v items'
+  end.
+
+Definition through_ok (pv : list var) (items : list item) (inp : plan) : bool :=
+  forallb (fun v => passes_through v items && mem v (schema inp)) pv.
+
+Fixpoint try_push_ok_pre (pred : expr) (op : plan) : bool :=
+  match op with
+  | PProject items inp =>
+      if disjointb (expr_vars pred) (aliases items)
+      then through_ok (expr_vars pred) items inp && try_push_ok_pre pred inp
+      else true
+  | PReturn items d inp => through_ok (expr_vars pred) items inp && try_push_ok_pre pred inp
+  | PExpand f t ev d ty h inp =>
+      let introduced := xintro t ev h in
+      if uses_any (expr_vars pred) introduced then true
+      else disjointb (expr_vars pred) (xhidden h) && try_push_ok_pre pred inp
+  | PJoin k cs l r =>
+      let pv := expr_vars pred in
+      let uses_left := uses_any pv (out_vars_pre l) in
+      let uses_right := uses_any pv (out_vars_pre r) in
+      if uses_left && negb uses_right then disjointb pv (schema r) && try_push_ok_pre pred l
+      else if uses_right && negb uses_left
+           then disjointb pv (schema l) && (match k with JLeft => false | _ => true end) && try_push_ok_pre pred r
+      else true
+  | _ => true
+  end.
+
+Fixpoint pfd_ok_pre (op : plan) : bool :=
+  match op with
+  | PFilter e inp => pfd_ok_pre inp && try_push_ok_pre e (pfd_pre inp)
+  | PReturn _ _ inp | PProject _ inp | PLimit _ inp | PSkip _ inp | PSort _ inp | PDistinct inp
+  | PExpand _ _ _ _ _ _ inp | PAgg _ _ inp => pfd_ok_pre inp
+  | PJoin _ _ l r => pfd_ok_pre l && pfd_ok_pre r
+  | PEmpty | PScan _ _ | PScanIn _ _ _ | PLeftJoin _ _ | PUnion _ _ => true
+  end.
+
+Definition k_push_pre (p : plan) : bool := negb (pfd_ok_pre p).
+
+(** ** The code since 7426671 (repair of C09-K1).  The definitions above ([out_vars_pre] .. [k_push_pre])
+    transcribe the code before it and are kept for the refutations.
+      [out_vars]   = collect_output_variables_recursive with the inputs of a chained NodeScan, of
+                         LeftJoin and of Union visited (an over-approximation of the columns),
+      [passed_through] = is_passed_through: a projection list hands [v] through unchanged
+                         ([v] or [v AS v]) and defines no other column of that name,
+      [try_push]   = try_push_filter_into: Project and Return are passed only by predicates all of
+                         whose variables are passed through; nothing is pushed into the optional side
+                         of a Join{Left}. *)
+Fixpoint out_vars (p : plan) : list var :=
+  match p with
+  | PScan x _ => [x]
+  | PScanIn x _ inp => x :: out_vars inp
+  | PExpand _ t ev _ _ h inp => xintro t ev h ++ out_vars inp
+  | PFilter _ inp => out_vars inp
+  | PProject items inp => aliases items ++ out_vars inp
+  | PJoin _ _ l r => out_vars l ++ out_vars r
+  | PAgg groups aggs _ => flat_map expr_vars groups ++ agg_aliases aggs
+  | PReturn _ _ inp => out_vars inp
+  | PLimit _ inp => out_vars inp
+  | PSkip _ inp => out_vars inp
+  | PSort _ inp => out_vars inp
+  | PDistinct inp => out_vars inp
+  | PLeftJoin l r | PUnion l r => out_vars l ++ out_vars r
+  | PEmpty => []
+  end.
+
+Fixpoint passed_through (v : var) (items : list item) (found : bool) : bool :=
+  match items with
+  | [] => found
+  | it :: items' =>
+      let ident := (match fst it with EVar x => String.eqb x v | _ => false end)
+                   && (match snd it with None => true | Some a => String.eqb a v end) in
+      if ident then passed_through v items' true
+      else if (match snd it with Some a => String.eqb a v | None => false end) then false
+      else passed_through v items' found
+  end.
+
+Definition all_passed (pv : list var) (items : list item) : bool :=
+  forallb (fun v => passed_through v items false) pv.
+
+Fixpoint try_push (pred : expr) (op : plan) : plan :=
+  match op with
+  | PProject items inp =>
+      if all_passed (expr_vars pred) items
       then PProject items (try_push pred inp)
       else PFilter pred op
-  | PReturn items d inp => PReturn items d (try_push pred inp)
+  | PReturn items d inp =>
+      if all_passed (expr_vars pred) items
+      then PReturn items d (try_push pred inp)
+      else PFilter pred op
   | PExpand f t ev d ty h inp =>
       let introduced := xintro t ev h in
       if uses_any (expr_vars pred) introduced
@@ -88,8 +225,9 @@ Fixpoint try_push (pred : expr) (op : plan) : plan :=
       let pv := expr_vars pred in
       let uses_left := uses_any pv (out_vars l) in
       let uses_right := uses_any pv (out_vars r) in
+      let right_pushable := match k with JLeft => false | _ => true end in
       if uses_left && negb uses_right then PJoin k cs (try_push pred l) r
-      else if uses_right && negb uses_left then PJoin k cs l (try_push pred r)
+      else if uses_right && negb uses_left && right_pushable then PJoin k cs l (try_push pred r)
       else PFilter pred op
   | _ => PFilter pred op
   end.
@@ -109,36 +247,18 @@ Fixpoint pfd (op : plan) : plan :=
   | PEmpty | PScan _ _ | PScanIn _ _ _ | PLeftJoin _ _ | PUnion _ _ => op
   end.
 
-(** *** Where the push-down is justified
-    [pfd_ok p] follows the recursion of [pfd]/[try_push] and is false as soon as a predicate is moved
-    to a place where one of its variables means something else:
-      - through an Expand with a path alias [p] although it mentions the hidden column
-        [_path_length_p] (the code only looks for [p]),
-      - through a Project/Return although a variable it mentions is not an identity pass-through
-        column of that operator (the code only looks at *aliases*, and not at all for Return),
-      - into one side of a join although it mentions a column of the other side (the code decides
-        with [out_vars], which does not know the columns of a NodeScan's input, a LeftJoin, a Union),
-      - into the optional side of a [JLeft] join (the code never looks at the join type).
-    The finding class is its negation. *)
-Fixpoint passes_through (v : var) (items : list item) : bool :=
-  match items with
-  | [] => false
-  | it :: items' =>
-      if String.eqb (item_name it) v
-      then match fst it with EVar x => String.eqb x v | _ => false end
-      else passes_through v items'
-  end.
-
-Definition through_ok (pv : list var) (items : list item) (inp : plan) : bool :=
-  forallb (fun v => passes_through v items && mem v (schema inp)) pv.
-
+(** where the push-down is justified (same semantic side conditions as [try_push_ok],
+    following the current branching); [k_push] is what is left of the class *)
 Fixpoint try_push_ok (pred : expr) (op : plan) : bool :=
   match op with
   | PProject items inp =>
-      if disjointb (expr_vars pred) (aliases items)
+      if all_passed (expr_vars pred) items
       then through_ok (expr_vars pred) items inp && try_push_ok pred inp
       else true
-  | PReturn items d inp => through_ok (expr_vars pred) items inp && try_push_ok pred inp
+  | PReturn items d inp =>
+      if all_passed (expr_vars pred) items
+      then through_ok (expr_vars pred) items inp && try_push_ok pred inp
+      else true
   | PExpand f t ev d ty h inp =>
       let introduced := xintro t ev h in
       if uses_any (expr_vars pred) introduced then true
@@ -147,9 +267,10 @@ Fixpoint try_push_ok (pred : expr) (op : plan) : bool :=
       let pv := expr_vars pred in
       let uses_left := uses_any pv (out_vars l) in
       let uses_right := uses_any pv (out_vars r) in
+      let right_pushable := match k with JLeft => false | _ => true end in
       if uses_left && negb uses_right then disjointb pv (schema r) && try_push_ok pred l
-      else if uses_right && negb uses_left
-           then disjointb pv (schema l) && (match k with JLeft => false | _ => true end) && try_push_ok pred r
+      else if uses_right && negb uses_left && right_pushable
+           then disjointb pv (schema l) && try_push_ok pred r
       else true
   | _ => true
   end.
@@ -165,129 +286,7 @@ Fixpoint pfd_ok (op : plan) : bool :=
 
 Definition k_push (p : plan) : bool := negb (pfd_ok p).
 
-(** ** Proposed repair of C09-K1 (proposed-fixes/C09-push-filter-scope.diff)
-    NOT the code of /repo: the transcription of the patched functions, kept beside the current one so
-    that the integrator can switch ([try_push] := [try_push_fix] ...) once the patch is committed.
-      [out_vars_fix]   = collect_output_variables_recursive with the inputs of a chained NodeScan, of
-                         LeftJoin and of Union visited (an over-approximation of the columns),
-      [passed_through] = is_passed_through: a projection list hands [v] through unchanged
-                         ([v] or [v AS v]) and defines no other column of that name,
-      [try_push_fix]   = try_push_filter_into: Project and Return are passed only by predicates all of
-                         whose variables are passed through; nothing is pushed into the optional side
-                         of a Join{Left}. *)
-Fixpoint out_vars_fix (p : plan) : list var :=
-  match p with
-  | PScan x _ => [x]
-  | PScanIn x _ inp => x :: out_vars_fix inp
-  | PExpand _ t ev _ _ h inp => xintro t ev h ++ out_vars_fix inp
-  | PFilter _ inp => out_vars_fix inp
-  | PProject items inp => aliases items ++ out_vars_fix inp
-  | PJoin _ _ l r => out_vars_fix l ++ out_vars_fix r
-  | PAgg groups aggs _ => flat_map expr_vars groups ++ agg_aliases aggs
-  | PReturn _ _ inp => out_vars_fix inp
-  | PLimit _ inp => out_vars_fix inp
-  | PSkip _ inp => out_vars_fix inp
-  | PSort _ inp => out_vars_fix inp
-  | PDistinct inp => out_vars_fix inp
-  | PLeftJoin l r | PUnion l r => out_vars_fix l ++ out_vars_fix r
-  | PEmpty => []
-  end.
-
-Fixpoint passed_through (v : var) (items : list item) (found : bool) : bool :=
-  match items with
-  | [] => found
-  | it :: items' =>
-      let ident := (match fst it with EVar x => String.eqb x v | _ => false end)
-                   && (match snd it with None => true | Some a => String.eqb a v end) in
-      if ident then passed_through v items' true
-      else if (match snd it with Some a => String.eqb a v | None => false end) then false
-      else passed_through v items' found
-  end.
-
-Definition all_passed (pv : list var) (items : list item) : bool :=
-  forallb (fun v => passed_through v items false) pv.
-
-Fixpoint try_push_fix (pred : expr) (op : plan) : plan :=
-  match op with
-  | PProject items inp =>
-      if all_passed (expr_vars pred) items
-      then PProject items (try_push_fix pred inp)
-      else PFilter pred op
-  | PReturn items d inp =>
-      if all_passed (expr_vars pred) items
-      then PReturn items d (try_push_fix pred inp)
-      else PFilter pred op
-  | PExpand f t ev d ty h inp =>
-      let introduced := xintro t ev h in
-      if uses_any (expr_vars pred) introduced
-      then PFilter pred op
-      else PExpand f t ev d ty h (try_push_fix pred inp)
-  | PJoin k cs l r =>
-      let pv := expr_vars pred in
-      let uses_left := uses_any pv (out_vars_fix l) in
-      let uses_right := uses_any pv (out_vars_fix r) in
-      let right_pushable := match k with JLeft => false | _ => true end in
-      if uses_left && negb uses_right then PJoin k cs (try_push_fix pred l) r
-      else if uses_right && negb uses_left && right_pushable then PJoin k cs l (try_push_fix pred r)
-      else PFilter pred op
-  | _ => PFilter pred op
-  end.
-
-Fixpoint pfd_fix (op : plan) : plan :=
-  match op with
-  | PFilter e inp => try_push_fix e (pfd_fix inp)
-  | PReturn items d inp => PReturn items d (pfd_fix inp)
-  | PProject items inp => PProject items (pfd_fix inp)
-  | PLimit n inp => PLimit n (pfd_fix inp)
-  | PSkip n inp => PSkip n (pfd_fix inp)
-  | PSort ks inp => PSort ks (pfd_fix inp)
-  | PDistinct inp => PDistinct (pfd_fix inp)
-  | PExpand f t ev d ty h inp => PExpand f t ev d ty h (pfd_fix inp)
-  | PJoin k cs l r => PJoin k cs (pfd_fix l) (pfd_fix r)
-  | PAgg gs ags inp => PAgg gs ags (pfd_fix inp)
-  | PEmpty | PScan _ _ | PScanIn _ _ _ | PLeftJoin _ _ | PUnion _ _ => op
-  end.
-
-(** where the patched push-down is justified (same semantic side conditions as [try_push_ok],
-    following the patched branching); [k_push_fix] is what is left of the class *)
-Fixpoint try_push_fix_ok (pred : expr) (op : plan) : bool :=
-  match op with
-  | PProject items inp =>
-      if all_passed (expr_vars pred) items
-      then through_ok (expr_vars pred) items inp && try_push_fix_ok pred inp
-      else true
-  | PReturn items d inp =>
-      if all_passed (expr_vars pred) items
-      then through_ok (expr_vars pred) items inp && try_push_fix_ok pred inp
-      else true
-  | PExpand f t ev d ty h inp =>
-      let introduced := xintro t ev h in
-      if uses_any (expr_vars pred) introduced then true
-      else disjointb (expr_vars pred) (xhidden h) && try_push_fix_ok pred inp
-  | PJoin k cs l r =>
-      let pv := expr_vars pred in
-      let uses_left := uses_any pv (out_vars_fix l) in
-      let uses_right := uses_any pv (out_vars_fix r) in
-      let right_pushable := match k with JLeft => false | _ => true end in
-      if uses_left && negb uses_right then disjointb pv (schema r) && try_push_fix_ok pred l
-      else if uses_right && negb uses_left && right_pushable
-           then disjointb pv (schema l) && try_push_fix_ok pred r
-      else true
-  | _ => true
-  end.
-
-Fixpoint pfd_fix_ok (op : plan) : bool :=
-  match op with
-  | PFilter e inp => pfd_fix_ok inp && try_push_fix_ok e (pfd_fix inp)
-  | PReturn _ _ inp | PProject _ inp | PLimit _ inp | PSkip _ inp | PSort _ inp | PDistinct inp
-  | PExpand _ _ _ _ _ _ inp | PAgg _ _ inp => pfd_fix_ok inp
-  | PJoin _ _ l r => pfd_fix_ok l && pfd_fix_ok r
-  | PEmpty | PScan _ _ | PScanIn _ _ _ | PLeftJoin _ _ | PUnion _ _ => true
-  end.
-
-Definition k_push_fix (p : plan) : bool := negb (pfd_fix_ok p).
-
-(** *** which plans the patched push-down is proved to keep (ProofsOptPush [pfd_fix_scoped])
+(** *** which plans push-down is proved to keep (ProofsOptPush [pfd_scoped])
     [wscoped]: every predicate and every projected expression mentions only columns of its input
     (what the Binder checks); [names_ok]: no predicate variable is spelled like a column name the
     planner invents ([_path_length_p], the name of an unaliased computed column, a Return alias). *)
@@ -407,21 +406,21 @@ Definition cond_infos (cs : list (expr * expr)) : list joininfo :=
                      end) cs.
 
 (** [collect_join_tree]: relations (key variable, operator), join infos, "is a join tree" *)
-Fixpoint jt_collect (p : plan) : list (var * plan) * list joininfo * bool :=
+Fixpoint jt_collect_pre (p : plan) : list (var * plan) * list joininfo * bool :=
   match p with
   | PJoin _ cs l r =>
-      let '(rl, cl, okl) := jt_collect l in
-      let '(rr, cr, okr) := jt_collect r in
+      let '(rl, cl, okl) := jt_collect_pre l in
+      let '(rr, cr, okr) := jt_collect_pre r in
       (rl ++ rr, cl ++ cr ++ cond_infos cs, okl && okr)
   | PScan x _ => ([(x, p)], [], true)
   | PScanIn x _ _ => ([(x, p)], [], true)
-  | PFilter _ inp => jt_collect inp           (* the predicate is forgotten *)
+  | PFilter _ inp => jt_collect_pre inp           (* the predicate is forgotten *)
   | PExpand _ t _ _ _ _ _ => ([(t, p)], [], true)
   | _ => ([], [], false)
   end.
 
-Definition jt_extract (p : plan) : option (list (var * plan) * list joininfo) :=
-  let '(rels, infos, ok) := jt_collect p in
+Definition jt_extract_pre (p : plan) : option (list (var * plan) * list joininfo) :=
+  let '(rels, infos, ok) := jt_collect_pre p in
   if ok && (2 <=? Z.of_nat (List.length rels)) then Some (rels, infos) else None.
 
 (** [JoinGraphBuilder]: [variable_to_node] keeps the last relation registered under a name *)
@@ -465,8 +464,8 @@ Definition connected (n : nat) (edges : list jedge) : bool :=
   let r := reach n edges [O] in
   forallb (fun i => nmem i r) (seq 0 n).
 
-Definition reorder_fires (p : plan) : bool :=
-  match jt_extract p with
+Definition reorder_fires_pre (p : plan) : bool :=
+  match jt_extract_pre p with
   | Some (rels, infos) => connected (List.length rels) (jg_edges rels infos)
   | None => false
   end.
@@ -491,6 +490,114 @@ Fixpoint find_rel (q : plan) (rels : list (var * plan)) (i : nat) (used : list n
 
 (** the relation indices a DPccp-shaped tree covers ([None]: not such a tree).  [used] threads the
     leaves already consumed so that structurally equal relations are matched one to one. *)
+Fixpoint dp_tree_pre (rels : list (var * plan)) (edges : list jedge) (a : plan) (used : list nat)
+  : option (list nat) :=
+  match a with
+  | PJoin JInner cs l r =>
+      match dp_tree_pre rels edges l used with
+      | Some sl =>
+          match dp_tree_pre rels edges r (sl ++ used) with
+          | Some sr =>
+              let crossing := filter (crosses sl sr) edges in
+              if negb (match crossing with [] => true | _ => false end)
+                 && conds_perm cs (map snd crossing)
+              then Some (sl ++ sr) else None
+          | None => None
+          end
+      | None => None
+      end
+  | _ => match find_rel a rels O used with Some i => Some [i] | None => None end
+  end.
+
+Definition dp_tree_ok_pre (rels : list (var * plan)) (edges : list jedge) (a : plan) : bool :=
+  match dp_tree_pre rels edges a [] with
+  | Some s => Nat.eqb (List.length s) (List.length rels)
+  | None => false
+  end.
+
+(** [reorder_chk_pre b a]: [a] is a possible result of [reorder_joins b] *)
+Fixpoint reorder_chk_pre (b a : plan) : bool :=
+  if reorder_fires_pre b then
+    match jt_extract_pre b with
+    | Some (rels, infos) => dp_tree_ok_pre rels (jg_edges rels infos) a
+    | None => false
+    end
+  else
+    match b, a with
+    | PReturn its d i, PReturn its' d' j => list_eqb item_eqb its its' && Bool.eqb d d' && reorder_chk_pre i j
+    | PProject its i, PProject its' j => list_eqb item_eqb its its' && reorder_chk_pre i j
+    | PFilter e i, PFilter e' j => expr_eqb e e' && reorder_chk_pre i j
+    | PLimit n i, PLimit m j => Nat.eqb n m && reorder_chk_pre i j
+    | PSkip n i, PSkip m j => Nat.eqb n m && reorder_chk_pre i j
+    | PSort ks i, PSort ks' j => list_eqb skey_eqb ks ks' && reorder_chk_pre i j
+    | PDistinct i, PDistinct j => reorder_chk_pre i j
+    | PAgg gs ags i, PAgg gs' ags' j => list_eqb expr_eqb gs gs' && list_eqb agg_eqb ags ags' && reorder_chk_pre i j
+    | PExpand f t ev d ty h i, PExpand f' t' ev' d' ty' h' j =>
+        String.eqb f f' && String.eqb t t' && ostr_eqb ev ev' && dir_eqb d d' && ostr_eqb ty ty' && hops_eqb h h'
+        && reorder_chk_pre i j
+    | _, _ => plan_eqb b a
+    end.
+
+(** *** The code since a2be94c (repair of C09-K2): "a is a plan reorder_joins may return for b".
+    [jt_collect_pre] .. [reorder_chk_pre] above describe the code before it.
+      [jt_collect]: only Inner/Cross joins belong to a join tree; a Filter over a base relation is
+        a relation *with* its filter, a Filter over a join makes the tree unreorderable; a condition
+        whose sides are not  variable-of-the-left-input = variable-of-the-right-input  (by
+        [collect_output_variables]) makes it unreorderable; every condition variable must be the key
+        of a relation ([jt_extract]),
+      [dp_tree]: each node carries the crossing graph edges written  left side = right side
+        ([JoinGraph::get_conditions] swaps a condition whose [from] relation is on the right). *)
+Fixpoint base_var (p : plan) : option var :=
+  match p with
+  | PScan x _ => Some x
+  | PScanIn x _ _ => Some x
+  | PExpand _ t _ _ _ _ _ => Some t
+  | PFilter _ i => base_var i
+  | _ => None
+  end.
+
+Definition cond_oriented (l r : plan) (c : expr * expr) : bool :=
+  match cond_var (fst c), cond_var (snd c) with
+  | Some a, Some b => mem a (out_vars l) && mem b (out_vars r)
+  | _, _ => false
+  end.
+
+Fixpoint jt_collect (p : plan) : list (var * plan) * list joininfo * bool :=
+  match p with
+  | PJoin k cs l r =>
+      let '(rl, cl, okl) := jt_collect l in
+      let '(rr, cr, okr) := jt_collect r in
+      (rl ++ rr, cl ++ cr ++ cond_infos cs,
+       (match k with JLeft => false | _ => true end) && forallb (cond_oriented l r) cs && okl && okr)
+  | PScan x _ => ([(x, p)], [], true)
+  | PScanIn x _ _ => ([(x, p)], [], true)
+  | PFilter _ inp =>
+      match base_var inp with
+      | Some v => ([(v, p)], [], true)
+      | None => ([], [], false)
+      end
+  | PExpand _ t _ _ _ _ _ => ([(t, p)], [], true)
+  | _ => ([], [], false)
+  end.
+
+Definition jt_extract (p : plan) : option (list (var * plan) * list joininfo) :=
+  let '(rels, infos, ok) := jt_collect p in
+  let known := map fst rels in
+  if ok && (2 <=? Z.of_nat (List.length rels))
+     && forallb (fun ji => mem (fst (fst ji)) known && mem (snd (fst ji)) known) infos
+  then Some (rels, infos) else None.
+
+Definition reorder_fires (p : plan) : bool :=
+  match jt_extract p with
+  | Some (rels, infos) => connected (List.length rels) (jg_edges rels infos)
+  | None => false
+  end.
+
+Definition orient (sl sr : list nat) (e : jedge) : expr * expr :=
+  match e with
+  | (i, j, c) => if nmem i sl && nmem j sr then c else (snd c, fst c)
+  end.
+
 Fixpoint dp_tree (rels : list (var * plan)) (edges : list jedge) (a : plan) (used : list nat)
   : option (list nat) :=
   match a with
@@ -501,7 +608,7 @@ Fixpoint dp_tree (rels : list (var * plan)) (edges : list jedge) (a : plan) (use
           | Some sr =>
               let crossing := filter (crosses sl sr) edges in
               if negb (match crossing with [] => true | _ => false end)
-                 && conds_perm cs (map snd crossing)
+                 && conds_perm cs (map (orient sl sr) crossing)
               then Some (sl ++ sr) else None
           | None => None
           end
@@ -516,7 +623,6 @@ Definition dp_tree_ok (rels : list (var * plan)) (edges : list jedge) (a : plan)
   | None => false
   end.
 
-(** [reorder_chk b a]: [a] is a possible result of [reorder_joins b] *)
 Fixpoint reorder_chk (b a : plan) : bool :=
   if reorder_fires b then
     match jt_extract b with
@@ -536,114 +642,6 @@ Fixpoint reorder_chk (b a : plan) : bool :=
     | PExpand f t ev d ty h i, PExpand f' t' ev' d' ty' h' j =>
         String.eqb f f' && String.eqb t t' && ostr_eqb ev ev' && dir_eqb d d' && ostr_eqb ty ty' && hops_eqb h h'
         && reorder_chk i j
-    | _, _ => plan_eqb b a
-    end.
-
-(** *** Proposed repair of C09-K2 (proposed-fixes/C09-reorder-joins.diff)
-    NOT the code of /repo: the relation "a is a plan the patched reorder_joins may return for b",
-    kept beside [reorder_chk] for the switch after the patch is committed.
-      [jt_collect_fix]: only Inner/Cross joins belong to a join tree; a Filter over a base relation is
-        a relation *with* its filter, a Filter over a join makes the tree unreorderable; a condition
-        whose sides are not  variable-of-the-left-input = variable-of-the-right-input  (by
-        [collect_output_variables]) makes it unreorderable; every condition variable must be the key
-        of a relation ([jt_extract_fix]),
-      [dp_tree_fix]: each node carries the crossing graph edges written  left side = right side
-        ([JoinGraph::get_conditions] swaps a condition whose [from] relation is on the right). *)
-Fixpoint base_var (p : plan) : option var :=
-  match p with
-  | PScan x _ => Some x
-  | PScanIn x _ _ => Some x
-  | PExpand _ t _ _ _ _ _ => Some t
-  | PFilter _ i => base_var i
-  | _ => None
-  end.
-
-Definition cond_oriented (l r : plan) (c : expr * expr) : bool :=
-  match cond_var (fst c), cond_var (snd c) with
-  | Some a, Some b => mem a (out_vars l) && mem b (out_vars r)
-  | _, _ => false
-  end.
-
-Fixpoint jt_collect_fix (p : plan) : list (var * plan) * list joininfo * bool :=
-  match p with
-  | PJoin k cs l r =>
-      let '(rl, cl, okl) := jt_collect_fix l in
-      let '(rr, cr, okr) := jt_collect_fix r in
-      (rl ++ rr, cl ++ cr ++ cond_infos cs,
-       (match k with JLeft => false | _ => true end) && forallb (cond_oriented l r) cs && okl && okr)
-  | PScan x _ => ([(x, p)], [], true)
-  | PScanIn x _ _ => ([(x, p)], [], true)
-  | PFilter _ inp =>
-      match base_var inp with
-      | Some v => ([(v, p)], [], true)
-      | None => ([], [], false)
-      end
-  | PExpand _ t _ _ _ _ _ => ([(t, p)], [], true)
-  | _ => ([], [], false)
-  end.
-
-Definition jt_extract_fix (p : plan) : option (list (var * plan) * list joininfo) :=
-  let '(rels, infos, ok) := jt_collect_fix p in
-  let known := map fst rels in
-  if ok && (2 <=? Z.of_nat (List.length rels))
-     && forallb (fun ji => mem (fst (fst ji)) known && mem (snd (fst ji)) known) infos
-  then Some (rels, infos) else None.
-
-Definition reorder_fires_fix (p : plan) : bool :=
-  match jt_extract_fix p with
-  | Some (rels, infos) => connected (List.length rels) (jg_edges rels infos)
-  | None => false
-  end.
-
-Definition orient (sl sr : list nat) (e : jedge) : expr * expr :=
-  match e with
-  | (i, j, c) => if nmem i sl && nmem j sr then c else (snd c, fst c)
-  end.
-
-Fixpoint dp_tree_fix (rels : list (var * plan)) (edges : list jedge) (a : plan) (used : list nat)
-  : option (list nat) :=
-  match a with
-  | PJoin JInner cs l r =>
-      match dp_tree_fix rels edges l used with
-      | Some sl =>
-          match dp_tree_fix rels edges r (sl ++ used) with
-          | Some sr =>
-              let crossing := filter (crosses sl sr) edges in
-              if negb (match crossing with [] => true | _ => false end)
-                 && conds_perm cs (map (orient sl sr) crossing)
-              then Some (sl ++ sr) else None
-          | None => None
-          end
-      | None => None
-      end
-  | _ => match find_rel a rels O used with Some i => Some [i] | None => None end
-  end.
-
-Definition dp_tree_fix_ok (rels : list (var * plan)) (edges : list jedge) (a : plan) : bool :=
-  match dp_tree_fix rels edges a [] with
-  | Some s => Nat.eqb (List.length s) (List.length rels)
-  | None => false
-  end.
-
-Fixpoint reorder_chk_fix (b a : plan) : bool :=
-  if reorder_fires_fix b then
-    match jt_extract_fix b with
-    | Some (rels, infos) => dp_tree_fix_ok rels (jg_edges rels infos) a
-    | None => false
-    end
-  else
-    match b, a with
-    | PReturn its d i, PReturn its' d' j => list_eqb item_eqb its its' && Bool.eqb d d' && reorder_chk_fix i j
-    | PProject its i, PProject its' j => list_eqb item_eqb its its' && reorder_chk_fix i j
-    | PFilter e i, PFilter e' j => expr_eqb e e' && reorder_chk_fix i j
-    | PLimit n i, PLimit m j => Nat.eqb n m && reorder_chk_fix i j
-    | PSkip n i, PSkip m j => Nat.eqb n m && reorder_chk_fix i j
-    | PSort ks i, PSort ks' j => list_eqb skey_eqb ks ks' && reorder_chk_fix i j
-    | PDistinct i, PDistinct j => reorder_chk_fix i j
-    | PAgg gs ags i, PAgg gs' ags' j => list_eqb expr_eqb gs gs' && list_eqb agg_eqb ags ags' && reorder_chk_fix i j
-    | PExpand f t ev d ty h i, PExpand f' t' ev' d' ty' h' j =>
-        String.eqb f f' && String.eqb t t' && ostr_eqb ev ev' && dir_eqb d d' && ostr_eqb ty ty' && hops_eqb h h'
-        && reorder_chk_fix i j
     | _, _ => plan_eqb b a
     end.
 
